@@ -188,9 +188,9 @@ theorem state_keys_routed :
 
 /-! ## non-vacuity -/
 
-/-- the judged set is not empty and contains the classes with nested blocks -/
-example : judged.length ≥ 18 ∧ (judged.map (·.name)).contains "Surface" ∧ (judged.map (·.name)).contains "Kinetics" := by
-  decide
+/-- every regenerated table is either judged or exempt (and proved defective above); there are 20 of them -/
+example : judged.length + exempt.length = allTables.length ∧ allTables.length = 20 := by
+  decide +kernel
 
 /-- a concrete record of the GasComp table: `p` (workspace, shadowed by `phase_name`) is lost in the first cycle,
 `moles` survives, and the second cycle changes nothing -/
